@@ -1432,6 +1432,12 @@ impl ProtocolState {
 
                 if let Err(error) = validate_packet_outbound_internal(packet, &validation_context) {
                     warn!("[{} ms] service_queue - {} operation {} failed last-chance validation", self.elapsed_time_ms, mqtt_packet_to_str(packet), current_operation_id);
+                    if outbound_alias_resolution.alias.is_some() && !outbound_alias_resolution.skip_topic {
+                        // the resolver recorded an alias binding that will never reach the broker; forget all bindings
+                        // (always safe) rather than let a later publish use an alias the broker has not seen
+                        let topic_alias_maximum = self.current_settings.as_ref().map_or(0, |settings| settings.topic_alias_maximum_to_server);
+                        self.outbound_alias_resolver.borrow_mut().reset_for_new_connection(topic_alias_maximum);
+                    }
                     self.current_operation = None;
                     self.complete_operation_as_failure(current_operation_id, error)?;
                     continue;
